@@ -66,6 +66,18 @@ def run(rep, tier, seed):
         events.append(base)
         recipes[base["id"]] = {"op": "validate", "rules": [ruledrv.lit_rule(r) for r in rrs], "doc": to_lit(doc)}
         rep.note_case(repr((rrs, doc)), nontrivial=base["ntested"] > 0)
+        if rng.random() < 0.5:
+            # the SAME Schema object validates the document, then an equal-but-differently-typed one, then the first again
+            shared = {}
+            for d2 in (doc, ruledrv.retype(rng, doc), doc):
+                try:
+                    e = ruledrv.validate_event(len(events) + 1, rrs, d2, shared=shared)
+                except Unencodable:
+                    break
+                events.append(e)
+                recipes[e["id"]] = {"op": "validate", "rules": [ruledrv.lit_rule(r) for r in rrs], "doc": to_lit(d2),
+                                    "note": "third of a sequence on one shared Schema object"}
+                rep.note_case(repr((rrs, d2, "shared")), nontrivial=e["ntested"] > 0)
         idx = list(range(1, n + 1))
         if n <= 4:
             perms = [p for p in itertools.permutations(idx)][1:]
